@@ -7,7 +7,7 @@ use std::process::Termination;
 use std::sync::atomic::{AtomicU64, Ordering};
 use std::sync::{Arc, Mutex};
 
-use unimock::Unimock;
+use unimock::{MockFn, Unimock};
 
 use crate::corpus::*;
 use crate::ctx::*;
@@ -129,9 +129,25 @@ fn exec_op(
                 Recv::Ref => match get_slot(run, slot) {
                     None => Err("slot empty".into()),
                     Some(h) => {
-                        let r = catch_unwind(AssertUnwindSafe(|| {
-                            do_call(m, x, y, &mut ref_port(&h))
-                        }));
+                        let r = if matches!(fault, Some(Fault::WhileUnwinding)) {
+                            // a guard's destructor makes the call while this thread unwinds
+                            struct OnUnwind<'a>(&'a dyn Fn());
+                            impl Drop for OnUnwind<'_> {
+                                fn drop(&mut self) {
+                                    (self.0)()
+                                }
+                            }
+                            let cell: std::cell::RefCell<Option<Result<u64, Box<dyn std::any::Any + Send>>>> = Default::default();
+                            let _ = catch_unwind(AssertUnwindSafe(|| {
+                                let _g = OnUnwind(&|| {
+                                    *cell.borrow_mut() = Some(catch_unwind(AssertUnwindSafe(|| do_call(m, x, y, &mut ref_port(&h)))));
+                                });
+                                std::panic::resume_unwind(Box::new(UserFault::Body));
+                            }));
+                            cell.into_inner().expect("the guard ran")
+                        } else {
+                            catch_unwind(AssertUnwindSafe(|| do_call(m, x, y, &mut ref_port(&h))))
+                        };
                         // the handle clone is dropped here; the slot keeps the instance alive unless a
                         // concurrent exclusive operation was refused, so this never drops the Unimock
                         release_handle(run, slot, h);
@@ -164,6 +180,9 @@ fn exec_op(
                                 PortReq::Call(m, ..) => panic!("bad by-value call {m:?}"),
                             })
                         }));
+                        // an instance that the real function let outlive the call goes now
+                        let kept = crate::corpus::take_kept();
+                        let _ = catch_unwind(AssertUnwindSafe(move || drop(kept)));
                         Ok(r)
                     }
                 },
@@ -352,6 +371,30 @@ fn exec_op(
                 Err(Box::new(UserFault::Body))
             }
         }
+        Op::UnwindScratch { unmet, with_clone } => {
+            let start = begin_op(run, tid, idx, None, 0);
+            struct Fixture(bool, bool);
+            impl Drop for Fixture {
+                fn drop(&mut self) {
+                    // (runs while the thread unwinds)
+                    let u = if self.0 {
+                        Unimock::new(AlphaMock::a1.some_call(unimock::matching!(_)).returns(1u64))
+                    } else {
+                        Unimock::new(())
+                    };
+                    let c = if self.1 { Some(u.clone()) } else { None };
+                    drop(u);
+                    drop(c);
+                }
+            }
+            let (unmet, with_clone) = (*unmet, *with_clone);
+            let _ = catch_unwind(move || {
+                let _f = Fixture(unmet, with_clone);
+                std::panic::resume_unwind(Box::new(UserFault::Body));
+            });
+            end_op(run, tid, idx, start, OpResult::UserPanicked(UserFault::Body), None, None);
+            Ok(())
+        }
         Op::LendSession { .. } => crate::lending::exec_op(run, tid, idx, op),
         Op::Own { .. } => crate::owning::exec_op(run, tid, idx, op),
         Op::DirectReal { slot, m, x, y } => {
@@ -496,7 +539,8 @@ pub fn run(scn: &Scenario) -> RunResult {
         let ops = scn.threads.get(tid).cloned().unwrap_or_default();
         let build_error = build_error.clone();
         let j = std::thread::Builder::new()
-            .name(format!("sim-{tid}"))
+            // (every simulated thread carries the same name: nothing may tell threads apart by it)
+            .name("sim".to_string())
             .stack_size((scn.knob("stack_kb").unwrap_or(1024) as usize) << 10)
             .spawn(move || {
                 TL.with(|tl| {
